@@ -5253,7 +5253,10 @@ int main_emit(module_decl * module_modules, module_decl * module_main, module * 
     func_list_weak_delete(list_weak);
 
     /* generate module entry function list */
-    seq_list_entry_params(module_main->nev->exprs, module_value, &gencode_res);
+    if (module_main->nev->exprs != NULL)
+    {
+        seq_list_entry_params(module_main->nev->exprs, module_value, &gencode_res);
+    }
 
     return gencode_res;
 }
